@@ -159,7 +159,7 @@ func Generate(repo, mode, outDir, srcDir string) (*Info, error) {
 			continue
 		}
 		tp := done[ip]
-		var names []string
+		var names, syncNames []string
 		for _, name := range tp.Scope().Names() {
 			if v, ok := tp.Scope().Lookup(name).(*types.Var); ok {
 				if name == "_" || strings.HasPrefix(name, "Verif") {
@@ -167,30 +167,32 @@ func Generate(repo, mode, outDir, srcDir string) (*Info, error) {
 				}
 				globals[tp.Name()+"."+name] = &GlobalVar{Pkg: ip, Name: name, Type: v.Type().String()}
 				if isSyncType(v.Type()) {
-					// synchronisation objects (sync.Pool, sync.Mutex, atomics) are not data: they are neither rendered in
-					// the snapshot (their internals change legitimately) nor copied by the restore
+					// synchronisation objects (sync.Pool, sync.Mutex, sync.Once, atomics) are not data: they are not rendered in
+					// the snapshot (their internals change legitimately). They ARE put back by the restore, together with the
+					// data — otherwise a restored (empty) lazily built table would sit next to a sync.Once that is already done.
+					syncNames = append(syncNames, name)
 					continue
 				}
 				names = append(names, name)
 			}
 		}
-		if len(names) == 0 {
+		if len(names)+len(syncNames) == 0 {
 			continue
 		}
 		snapPkgs = append(snapPkgs, pk)
 		var b bytes.Buffer
 		fmt.Fprintf(&b, "package %s\n\nimport verifFmt \"fmt\"\n\n", pk.Name)
 		fmt.Fprintf(&b, "// VerifSnapshot renders every package-level variable of this package (generated by vmc/instr).\n")
-		fmt.Fprintf(&b, "func VerifSnapshot() string {\n\treturn verifFmt.Sprintf(%q", strings.Repeat("%+v|", len(names)))
+		fmt.Fprintf(&b, "func VerifSnapshot() string {\n\treturn verifFmt.Sprintf(%q", strings.Repeat("%+v|", len(names))+"-")
 		for _, n := range names {
 			fmt.Fprintf(&b, ", %s", n)
 		}
 		fmt.Fprintf(&b, ")\n}\n\n")
-		for _, n := range names {
+		for _, n := range append(append([]string(nil), names...), syncNames...) {
 			fmt.Fprintf(&b, "var verifSaved_%s = %s\n", n, n)
 		}
 		fmt.Fprintf(&b, "\n// VerifRestore puts every package-level variable back to its value at program start (shallow).\nfunc VerifRestore() {\n")
-		for _, n := range names {
+		for _, n := range append(append([]string(nil), names...), syncNames...) {
 			fmt.Fprintf(&b, "\t%s = verifSaved_%s\n", n, n)
 		}
 		fmt.Fprintf(&b, "}\n")
